@@ -155,7 +155,7 @@ def check(ctx):
             rep.add('U3', fc.site(sd), 'file channel: leaf labels and signatures descend from the same get_sequence_files call (ids first, files second)', ok, expected='same call', found=(lroot, sroot), stmt='file channel labels')
             okk = isinstance(sd.value, ast.Call) and isinstance(sd.value.args[0], ast.Name)
             kd = def_value(reaching_def(cn, sd.value.args[0].id, sd)) if okk else None
-            okk = isinstance(kd, ast.Call) and (m.resolve_call(fc, kd) or '').endswith('kspec_from_params') and is_const(get_kw(kd, 'default'), True)
+            okk = isinstance(kd, ast.Call) and (m.resolve_call(fc, kd) or '').endswith('kspec_from_params') and is_const(get_arg(kd, 2, 'default'), True)
             rep.add('U3', fc.site(sd), 'signatures are computed with the requested parameters or the default ones', okk, expected='kspec_from_params(k, prefix, default=True)', found=u(kd), stmt='tree kspec')
         else:
             ok = u(ld.value) == f'{sigs}.ids' and isinstance(sd.value, ast.Call) and (m.resolve_call(fc, sd.value) or '').endswith('load_signatures') and sd.lineno < ld.lineno
